@@ -30,7 +30,11 @@ def to_native(x, encoding="ascii"):
 
 
 def json_loads(s):
-    return json.loads(s)
+    try:
+        return json.loads(s)
+    except RecursionError as exc:
+        # nested too deeply for the decoder: not a document we read
+        raise ValueError("JSON document nested too deeply") from exc
 
 
 def json_dumps(data, ensure_ascii=False):
